@@ -511,6 +511,63 @@ func stringsIntrinsic(name string, fn *ssa.Function) intrinsicFn {
 		}
 	// ---- net/http.Header as a plain map with canonical concrete keys
 	// ---- sync.Map as an association list per map object; reflect.TypeOf as an opaque, comparable type name
+	// ---- sync.Pool as a LIFO stash per pool object: Get hands back the most recently Put object (the schedule under
+	// which pooled objects are reused at once — the one that exposes aliasing of pooled buffers), else New()
+	case "(*sync.Pool).Get", "(*sync.Pool).Put":
+		op := name[strings.LastIndex(name, ".")+1:]
+		return func(x *Exec, f *ssa.Function, a []Value) Value {
+			p, _ := a[0].(*Pointer)
+			if p == nil {
+				x.abort("PANIC", "nil *sync.Pool")
+			}
+			if x.syncPools == nil {
+				x.syncPools = map[string][]Value{}
+			}
+			k := ptrKey(p)
+			if op == "Put" {
+				if iv, _ := a[1].(*IfaceV); iv != nil {
+					x.syncPools[k] = append(x.syncPools[k], a[1])
+				}
+				return nil
+			}
+			if st := x.syncPools[k]; len(st) > 0 {
+				v := st[len(st)-1]
+				x.syncPools[k] = st[:len(st)-1]
+				return v
+			}
+			pt := f.Signature.Recv().Type().(*types.Pointer).Elem().Underlying().(*types.Struct)
+			for i := 0; i < pt.NumFields(); i++ {
+				if pt.Field(i).Name() == "New" {
+					if nf := x.load(sub(p, i)); !isNilValue(nf) {
+						return x.callValue(nf, nil)
+					}
+				}
+			}
+			return (*IfaceV)(nil)
+		}
+	// ---- (*json.Encoder).Encode: the uninterpreted JSON text of v plus a newline, handed to the encoder's writer
+	case "(*encoding/json.Encoder).Encode", "(*github.com/segmentio/encoding/json.Encoder).Encode":
+		return func(x *Exec, f *ssa.Function, a []Value) Value {
+			p, _ := a[0].(*Pointer)
+			if p == nil {
+				x.abort("PANIC", "nil *json.Encoder")
+			}
+			st := f.Signature.Recv().Type().(*types.Pointer).Elem().Underlying().(*types.Struct)
+			for i := 0; i < st.NumFields(); i++ {
+				if st.Field(i).Name() == "w" {
+					w := x.load(sub(p, i))
+					t := x.newToken("json", a[1])
+					data := x.byteSlice(append(append([]*Term{}, t.B...), mkInt('\n')))
+					r := x.invoke(w, "Write", data)
+					if tu, ok := r.(*Tuple); ok && len(tu.Elems) == 2 {
+						return tu.Elems[1]
+					}
+					return nilErr
+				}
+			}
+			x.abort("UNSUPPORTED", "json.Encoder without a writer field")
+			return nil
+		}
 	case "(*sync.Map).Load", "(*sync.Map).Store", "(*sync.Map).LoadOrStore", "(*sync.Map).Delete", "(*sync.Map).LoadAndDelete":
 		op := name[strings.LastIndex(name, ".")+1:]
 		return func(x *Exec, _ *ssa.Function, a []Value) Value {
